@@ -133,6 +133,9 @@ api! {
     intsec: "intsec" => fn(H, H) -> H;
     diff: "diff" => fn(H, H) -> H;
     make_node: "make_node" => fn(H, H, H) -> H;
+    // DDDMP through C (settings, names and error pointers may be NULL)
+    export_dddmp: "manager_export_dddmp" => fn(Mgr, *const std::ffi::c_char, usize, *const H, usize, *const *const std::ffi::c_char, *const c_void, *mut c_void) -> bool;
+    import_dddmp: "manager_import_dddmp" => fn(Mgr, *mut c_void, *const u32, *mut H, *mut c_void) -> bool;
 }
 
 #[derive(Clone, Debug, Serialize, Deserialize, PartialEq)]
@@ -160,6 +163,9 @@ pub enum FOp {
     PickCubeDd(u16),
     PickCubeDdSet(u16, u16, u16),
     ContainingManager(u16),
+    /// export up to two owned functions with oxidd_*_manager_export_dddmp, open the file with
+    /// oxidd_dddmp_open and import it into the same manager
+    DddmpRoundTrip(u16, u16, bool),
     // ZBDD set operations
     ZSingleton(u16),
     ZBase,
@@ -181,6 +187,8 @@ pub struct FStat {
     pub checks: u64,
     pub new_handles: u64,
     pub invalid_calls: u64,
+    #[serde(default)]
+    pub dddmp_roundtrips: u64,
     pub gc_checks: u64,
     pub retained_operand_results: u64,
 }
@@ -648,6 +656,67 @@ pub fn run_case(kind: BKind, c: &FCase) -> Result<FStat, String> {
                     }
                     own!(r, got, what);
                 }
+                FOp::DddmpRoundTrip(a, b, two) => {
+                    let Some((ha, ta)) = get(*a, &pool) else { continue };
+                    let mut fs = vec![(ha, ta)];
+                    if *two {
+                        if let Some(x) = get(*b, &pool) {
+                            fs.push(x);
+                        }
+                    }
+                    // kind-independent helpers of the same library
+                    let sym = |name: &str| -> *mut c_void {
+                        let c = CString::new(name).unwrap();
+                        libc::dlsym(lib, c.as_ptr())
+                    };
+                    let (p_open, p_close, p_roots, p_vars) = (sym("oxidd_dddmp_open"), sym("oxidd_dddmp_close"), sym("oxidd_dddmp_num_roots"), sym("oxidd_dddmp_num_vars"));
+                    if p_open.is_null() || p_close.is_null() || p_roots.is_null() || p_vars.is_null() {
+                        return Err("symbol-missing: oxidd_dddmp_open/close/num_roots/num_vars".into());
+                    }
+                    let d_open: unsafe extern "C" fn(*const std::ffi::c_char, usize, *mut c_void) -> *mut c_void = std::mem::transmute(p_open);
+                    let d_close: unsafe extern "C" fn(*mut c_void) = std::mem::transmute(p_close);
+                    let d_roots: unsafe extern "C" fn(*const c_void) -> usize = std::mem::transmute(p_roots);
+                    let d_vars: unsafe extern "C" fn(*const c_void) -> u32 = std::mem::transmute(p_vars);
+                    let dir = format!("{}/target/tmp", verif_dir());
+                    let _ = std::fs::create_dir_all(&dir);
+                    let path = format!("{dir}/c19-{}.dddmp", std::process::id());
+                    let hs: Vec<H> = fs.iter().map(|x| x.0).collect();
+                    let ok = f!(export_dddmp)(mgr, path.as_ptr().cast(), path.len(), hs.as_ptr(), hs.len(), std::ptr::null(), std::ptr::null(), std::ptr::null_mut());
+                    st.checks += 1;
+                    if !ok {
+                        let _ = std::fs::remove_file(&path);
+                        return Err(format!("dddmp-export: {what}: oxidd_*_manager_export_dddmp returned false"));
+                    }
+                    let file = d_open(path.as_ptr().cast(), path.len(), std::ptr::null_mut());
+                    if file.is_null() {
+                        let _ = std::fs::remove_file(&path);
+                        return Err(format!("dddmp-open: {what}: oxidd_dddmp_open rejects the file written by the export function"));
+                    }
+                    if d_roots(file) != hs.len() || d_vars(file) != n {
+                        let r = format!("dddmp-header: {what}: file reports {} roots / {} variables, exported {} / {n}", d_roots(file), d_vars(file), hs.len());
+                        d_close(file);
+                        let _ = std::fs::remove_file(&path);
+                        return Err(r);
+                    }
+                    let mut out = vec![INVALID; hs.len()];
+                    let ok = f!(import_dddmp)(mgr, file, std::ptr::null(), out.as_mut_ptr(), std::ptr::null_mut());
+                    d_close(file);
+                    let _ = std::fs::remove_file(&path);
+                    if !ok {
+                        return Err(format!("dddmp-import: {what}: import of the exported file into the same manager failed"));
+                    }
+                    st.dddmp_roundtrips += 1;
+                    for (k, h) in out.into_iter().enumerate() {
+                        // same manager: the imported function is the exported handle; the caller owns a new reference
+                        if h != hs[k] {
+                            if !h.p.is_null() {
+                                f!(unref)(h);
+                            }
+                            return Err(format!("dddmp-roundtrip: {what}: imported root {k} is not the exported function"));
+                        }
+                        own!(h, fs[k].1, what);
+                    }
+                }
                 FOp::ContainingManager(a) => {
                     let Some((ha, _)) = get(*a, &pool) else { continue };
                     let m2 = f!(containing_manager)(ha);
@@ -776,6 +845,7 @@ fn fop_strategy() -> impl Strategy<Value = FOp> {
         2 => s().prop_map(FOp::PickCubeDd),
         2 => (s(), s(), s()).prop_map(|(a, p, n)| FOp::PickCubeDdSet(a, p, n)),
         1 => s().prop_map(FOp::ContainingManager),
+        2 => (s(), s(), any::<bool>()).prop_map(|(a, b, two)| FOp::DddmpRoundTrip(a, b, two)),
         3 => s().prop_map(FOp::ZSingleton),
         1 => Just(FOp::ZBase),
         4 => (any::<u8>(), s(), s()).prop_map(|(w, a, v)| FOp::ZSub(w, a, v)),
@@ -835,7 +905,7 @@ fn campaign(kname: &'static str, seed: u64, cases: u32, rep: &mut Report) {
                         samples.push(json!({"kind": kname, "case": c}));
                     }
                 }
-                for (k, v) in [("new_handles", s.new_handles), ("invalid_calls", s.invalid_calls), ("gc_balance_checks", s.gc_checks)] {
+                for (k, v) in [("new_handles", s.new_handles), ("invalid_calls", s.invalid_calls), ("gc_balance_checks", s.gc_checks), ("dddmp_roundtrips_through_c", s.dddmp_roundtrips)] {
                     *agg.entry(format!("{kname}.{k}")).or_insert(0) += v;
                 }
             }
@@ -921,7 +991,7 @@ pub fn run(cfg: &Cfg) -> i32 {
         &total,
         Meta {
             level: "exploration",
-            rule: "proptest call sequences (10..70 calls) over the exported oxidd_{bdd,bcdd,zbdd}_* symbols of the freshly built liboxidd_ffi_c.so (loaded with dlopen, prototypes declared by hand): manager_new/ref/unref, add_vars, set_var_order, var/level maps, gc, constants, var/not_var, all connectives, ite, restrict, quantifiers and apply-quantify, substitution objects (new/add_pair/substitute twice/free), cofactors, ref/unref, node_count/level/var, satisfiable/valid, sat_count_double, pick_cube(+assignment_free)/pick_cube_dd/pick_cube_dd_set, eval, containing_manager, ZBDD singleton/base/empty/subset0/subset1/change/union/intsec/diff/make_node (which consumes hi and lo - also when var, hi or lo is the invalid handle), and calls with the invalid handle at every operand position. Oracle: the harness keeps a ledger of the handles it owns with their truth tables (model = what the Rust API yields by C02-C04/C09): every returned handle must evaluate (oxidd_*_eval on all assignments) to the model table and have the reference node count; an invalid operand must give an invalid result; after every gc the manager must hold exactly the inner nodes of the shared reduced diagram of the owned tables (a leaked reference shows up as a surplus, an over-release as a deficit or crash); at the end every owned handle is unref'ed once and the manager must be back at its baseline. Each sequence runs in a forked child (a segfault/abort is a verdict). Non-trivial = sequence with a result whose operands stay owned, at least one invalid-handle call and at least one gc balance check.",
+            rule: "proptest call sequences (10..70 calls) over the exported oxidd_{bdd,bcdd,zbdd}_* symbols of the freshly built liboxidd_ffi_c.so (loaded with dlopen, prototypes declared by hand): manager_new/ref/unref, add_vars, set_var_order, var/level maps, gc, constants, var/not_var, all connectives, ite, restrict, quantifiers and apply-quantify, substitution objects (new/add_pair/substitute twice/free), cofactors, ref/unref, node_count/level/var, satisfiable/valid, sat_count_double, pick_cube(+assignment_free)/pick_cube_dd/pick_cube_dd_set, eval, containing_manager, DDDMP round trips through C (manager_export_dddmp with NULL settings/names/error -> oxidd_dddmp_open/num_roots/num_vars -> manager_import_dddmp into the same manager: the imported handles must be the exported ones and are owned by the caller), ZBDD singleton/base/empty/subset0/subset1/change/union/intsec/diff/make_node (which consumes hi and lo - also when var, hi or lo is the invalid handle), and calls with the invalid handle at every operand position. Oracle: the harness keeps a ledger of the handles it owns with their truth tables (model = what the Rust API yields by C02-C04/C09): every returned handle must evaluate (oxidd_*_eval on all assignments) to the model table and have the reference node count; an invalid operand must give an invalid result; after every gc the manager must hold exactly the inner nodes of the shared reduced diagram of the owned tables (a leaked reference shows up as a surplus, an over-release as a deficit or crash); at the end every owned handle is unref'ed once and the manager must be back at its baseline. Each sequence runs in a forked child (a segfault/abort is a verdict). Non-trivial = sequence with a result whose operands stay owned, at least one invalid-handle call and at least one gc balance check.",
             assumptions: vec!["manager handle balance (strong count) is not observable through the public C API and is not checked".into(), "C++/Python layers are not built here (no CMake/pytest offline)".into(), "DDDMP/DOT export through the C API is not driven".into()],
             extra: json!({"library": lib_path()}),
         },
